@@ -176,7 +176,13 @@ def r3_no_overwrite(ctx, cb, rule='C03-R3'):
     for (ins, ec) in cb.ev_inserts:
         # every pending eventually property gets its counterexample at this terminal state: after an insert the
         # property loop goes on (no way out of the loop body that does not pass through its head)
-        heads = [c for c in cb.prop_next if b.dominates(c.bb, ins.bb) and b.in_cycle(c.bb)]
+        # (the loop the insert sits in: it may walk the properties or the bits that are still set)
+        heads = []
+        for c in b.calls_to('Iterator::next'):
+            if b.dominates(c.bb, ins.bb) and b.in_cycle(c.bb):
+                some_ = b.branch(c, 'Some')
+                if some_ and ins.bb in b.reach([e[1] for e in some_], cut_blocks=[c.bb]):
+                    heads.append(c)
         if heads and ins.target is not None:
             head = max(heads, key=lambda c: len([1 for x in heads if b.dominates(x.bb, c.bb)]))
             after = b.reach([ins.target], cut_blocks=[head.bb])
